@@ -324,21 +324,30 @@ def assemble(template_path, repo, verif_root, canary=False):
     return out
 
 
-def _process(path, out, repo, verif_root, canary, depth):
+def _process(path, out, repo, verif_root, canary, depth, subst=()):
     if depth > 5:
         raise Undecided("template: include depth")
     with open(path) as f:
-        tl = f.read().rstrip("\n").split("\n")
+        txt = f.read().rstrip("\n")
+    for a, b in subst:
+        txt = txt.replace(a, b)
+    tl = txt.split("\n")
     i = 0
     while i < len(tl):
         ln = tl[i]
         st = ln.strip()
-        if st.startswith("//@include"):
+        if st.startswith("//@include-subst"):
+            parts = shlex.split(st[len("//@include-subst"):])
+            ipath = "%s/%s" % (verif_root, parts[0])
+            sub = [tuple(x.split("=>", 1)) for x in parts[1:]]
+            _process(ipath, out, repo, verif_root, canary, depth + 1, tuple(subst) + tuple(sub))
+            i += 1
+        elif st.startswith("//@include"):
             ipath = "%s/%s" % (verif_root, st.split()[1])
             with open(ipath) as f:
                 inc = f.read().rstrip("\n")
             if "//@" in inc:
-                _process(ipath, out, repo, verif_root, canary, depth + 1)
+                _process(ipath, out, repo, verif_root, canary, depth + 1, subst)
             else:
                 out.proof_fns += len(re.findall(r"\bproof fn\b", inc))
                 out.emit(inc, Origin(kind="include", src=st.split()[1]))
